@@ -45,7 +45,9 @@ func mine(c *harness.Ctx, i int) bool { return i%c.Batches == c.Batch }
 func drain(n *node.Node) []*node.Leg {
 	var legs []*node.Leg
 	for g := 0; len(n.Pool) > 0 && g < 50; g++ {
-		legs = append(legs, n.Deliver(0))
+		if l := n.Deliver(0); l != nil {
+			legs = append(legs, l)
+		}
 	}
 	return legs
 }
@@ -331,6 +333,7 @@ func init() {
 			selfTransfers(c, en)
 			forgedDeliveries(c, en)
 			bigMulti(c, en)
+			hugeNonceOps(c, en)
 			runWalks(c, c.Scale(400, 1500), c.Scale(70, 120), 12, true, en...)
 		},
 	})
@@ -346,6 +349,7 @@ func init() {
 			transferMatrix(c, []string{"C02"}, nil)
 			selfTransfers(c, []string{"C02"})
 			forgedDeliveries(c, []string{"C02"})
+			hugeNonceOps(c, []string{"C02"})
 			runWalks(c, c.Scale(400, 1500), c.Scale(70, 120), 15, true, "C02")
 		},
 	})
@@ -382,6 +386,7 @@ func init() {
 		Floors:      map[string]int64{"C05/savekv-accepted": 100, "C05/savekv-rejected:*": 100, "C05/footprint-leg:*": 500},
 		Run: func(c *harness.Ctx) {
 			c05Directed(c)
+			hugeNonceOps(c, []string{"C05"})
 			transferMatrix(c, []string{"C05"}, nil)
 			runWalks(c, c.Scale(400, 1500), c.Scale(70, 120), 25, true, "C05")
 		},
@@ -395,6 +400,7 @@ func init() {
 		Floors:      map[string]int64{"C07/create": 300, "C07/handover-complete:*": 60, "C07/create-rejected-during-handover": 5},
 		Run: func(c *harness.Ctx) {
 			c07Histories(c)
+			hugeNonceOps(c, []string{"C07"})
 			runWalks(c, c.Scale(400, 1500), c.Scale(70, 120), 8, true, "C07")
 		},
 	})
@@ -407,6 +413,7 @@ func init() {
 		Floors:      map[string]int64{"C08/create": 100, "C08/hop:*": 200, "C08/payload:*": 50, "C08/meta-op:*": 50, "C08/wrong-hash-rejected": 4},
 		Run: func(c *harness.Ctx) {
 			c08Routes(c)
+			hugeNonceOps(c, []string{"C08"})
 			transferMatrix(c, []string{"C08"}, nil)
 			runWalks(c, c.Scale(400, 1500), c.Scale(70, 120), 8, true, "C08")
 		},
@@ -506,6 +513,17 @@ func c02Directed(c *harness.Ctx) {
 							s.M.viol("C02", "overdraft-accepted:"+fn, fmt.Sprintf("%s of %s succeeded with a holding of %s", fn, amt, prior), l)
 						} else {
 							c.R.Cover("C02/overdraft-rejected")
+						}
+						// the same overdraft with every flag a protocol-generated call can carry
+						for _, ct := range []vmcommon.CallType{vmcommon.AsynchronousCall, vmcommon.AsynchronousCallBack, vmcommon.ESDTTransferAndExecute} {
+							c2 := l.Call
+							c2.CallType = ct
+							c2.RetAfterErr = ct == vmcommon.AsynchronousCallBack
+							if l2 := u.N.Exec(c2); l2.OK {
+								s.M.viol("C02", "overdraft-accepted:"+fn, fmt.Sprintf("%s of %s succeeded with a holding of %s (call type %d, return-after-error %v)", fn, amt, prior, ct, c2.RetAfterErr), l2)
+							} else {
+								c.R.Cover("C02/overdraft-rejected")
+							}
 						}
 					}
 					c.R.DistinctS("C02", fn, fmt.Sprint(pi), fmt.Sprint(ai), fmt.Sprint(l.OK))
@@ -1266,6 +1284,13 @@ func c09Product(c *harness.Ctx) {
 								call := s.Xfer(f.Fn, from, dst, f.Pattern, ex...)
 								call.CallType = ct
 								l := u.N.Exec(call)
+								// the same message delivered on behalf of ANOTHER metachain contract (only
+								// the ESDT system contract is exempt from the payability query)
+								for _, m := range u.N.Pool {
+									m2 := *m
+									m2.From = otherMetaSC
+									u.N.DeliverMsg(&m2)
+								}
 								verify := ct != vmcommon.AsynchronousCallBack && ct != vmcommon.ESDTTransferAndExecute && len(ex) == 0
 								if verify && ans != world.PayYes && u.ShardOf(dst) == 0 {
 									s.M.C09rejected(l, "sender-leg")
@@ -1284,6 +1309,28 @@ func c09Product(c *harness.Ctx) {
 					}
 				}
 			}
+		}
+		// multi-transfers whose entry count does not fit a byte, plain, to non-payable contracts
+		for _, nEntries := range []int{256, 257, 300} {
+			i++
+			if !mine(c, i) {
+				continue
+			}
+			s := NewScn(c.Rand("c09big").Fork(uint64(nEntries)), c.R, ScnOpts{Shards: S, Enabled: []string{"C09"}})
+			var items []gen.Item
+			for k := 0; k < nEntries; k++ {
+				items = append(items, gen.Item{ID: s.F1, Nonce: 0, Qty: big.NewInt(1)})
+			}
+			items[1] = gen.Item{ID: s.SFT, Nonce: 1, Qty: big.NewInt(1)}
+			for _, dst := range [][]byte{s.NSame, s.NOther} {
+				s.M.C09rejected(s.U.N.Exec(gen.MultiCall(s.A, dst, items, gen.BigGas)), "big-multi")
+				for _, dl := range drain(s.U.N) {
+					if dl.Msg != nil && !dl.Msg.IsRefund {
+						s.M.C09rejected(dl, "big-multi")
+					}
+				}
+			}
+			c.R.Eval(s.U.N.Seq())
 		}
 		// system contract as the origin: exempt
 		for _, ans := range []int{world.PayNo, world.PayErr} {
@@ -1321,6 +1368,13 @@ func c09Product(c *harness.Ctx) {
 		}
 	}
 }
+
+// otherMetaSC: a metachain system contract that is not the ESDT system contract.
+var otherMetaSC = func() []byte {
+	a := append([]byte{}, gen.SysSC...)
+	a[29] = 4
+	return a
+}()
 
 // c09MetaNode: the executing node is the metachain (SelfId() == MetachainShardId): a destination
 // that maps to the metachain is then "in shard", and must be rejected all the same.
@@ -1410,6 +1464,50 @@ func c10Extra(c *harness.Ctx) {
 					u.N.Exec(gen.MultiCall(s.A, dst, []gen.Item{{ID: s.F1, Nonce: 0, Qty: big.NewInt(1)}, {ID: s.SFT, Nonce: n, Qty: big.NewInt(1)}}, gen.BigGas, attachedFor(dst)...))
 					drain(u.N)
 				}
+			}
+			c.R.Eval(u.N.Seq())
+		}
+	}
+}
+
+// hugeNonceOps: every NFT operation on nonces around the 8-, 32-, 63- and 64-bit boundaries
+// (counters seeded directly, storage and shadow alike).
+func hugeNonceOps(c *harness.Ctx, enabled []string) {
+	for k, ctr := range []uint64{254, 65534, 1<<32 - 2, 1<<63 - 2, 1<<63 + 4, ^uint64(0) - 3} {
+		if !mine(c, k) {
+			continue
+		}
+		for _, S := range []uint32{1, 2} {
+			s := NewScn(c.Rand("hugenonce").Fork(uint64(k)), c.R, ScnOpts{Shards: S, Enabled: enabled})
+			u := s.U
+			seedCounter(s, s.A, s.SFT, ctr)
+			for j := 0; j < 3; j++ {
+				l := u.Create(s.A, s.SFT, 9, "big-nonce", "h", "attrs", 5, "u")
+				if !l.OK {
+					continue
+				}
+				n := ctr + uint64(j) + 1
+				u.N.Exec(gen.SelfCall(FNFTAddQty, s.A, gen.BigGas, s.SFT, gen.U64(n), gen.Big(3)))
+				u.N.Exec(gen.SelfCall(FNFTAddURI, s.A, gen.BigGas, s.SFT, gen.U64(n), []byte("u2")))
+				u.N.Exec(gen.SelfCall(FNFTUpdAttr, s.A, gen.BigGas, s.SFT, gen.U64(n), []byte("attrs-2")))
+				for _, dst := range [][]byte{s.Other, s.KOther, s.Same, s.KSame} {
+					u.N.Exec(gen.NFTTransferCall(s.A, dst, s.SFT, n, big.NewInt(1), gen.BigGas, attachedFor(dst)...))
+					u.N.Exec(gen.MultiCall(s.A, dst, []gen.Item{{ID: s.F1, Nonce: 0, Qty: big.NewInt(1)}, {ID: s.SFT, Nonce: n, Qty: big.NewInt(1)}, {ID: s.SFT, Nonce: 1, Qty: big.NewInt(1)}}, gen.BigGas, attachedFor(dst)...))
+					drain(u.N)
+				}
+				u.N.Exec(gen.NFTTransferCall(s.Same, s.A, s.SFT, n, big.NewInt(1), gen.BigGas))
+				u.N.Exec(gen.SelfCall(FNFTBurn, s.A, gen.BigGas, s.SFT, gen.U64(n), gen.Big(2)))
+				drain(u.N)
+			}
+			// hand the role (and the huge counter) over and create on
+			u.HandOver(s.A, s.Other, s.SFT)
+			drain(u.N)
+			u.Create(s.Other, s.SFT, 1, "after-handover", "h", "", 0, "u")
+			if s.M.Enabled["C01"] {
+				s.M.conservation(u.N, &node.Leg{Call: node.Call{Func: "end"}, OK: true}, true)
+			}
+			if s.M.Enabled["C15"] {
+				s.M.C15(u.N, &node.Leg{Call: node.Call{Func: "end"}, OK: true}, true)
 			}
 			c.R.Eval(u.N.Seq())
 		}
